@@ -103,7 +103,7 @@ let show_value = function
 let err_name = function
   | ENoSuchTable -> "ENoSuchTable" | EExists -> "EExists" | ENoSuchColumn -> "ENoSuchColumn"
   | EDupColumn -> "EDupColumn" | ENotNull -> "ENotNull" | EAddNotNull -> "EAddNotNull"
-  | EArity -> "EArity" | EGenerated -> "EGenerated" | EFK -> "EFK" | EFuel -> "EFuel"
+  | EArity -> "EArity" | EGenerated -> "EGenerated" | EFK -> "EFK" | EFuel -> "EFuel" | ELocked -> "ELocked"
 
 (* a column is masked when it is generated or when the table had a column of that name with
    another declared type before (conversion by affinity is outside the model) *)
@@ -133,6 +133,8 @@ let run_apply id =
   let tx = next_int () in          (* 0 on the connection, 1 through OpenTx, 2 inside a plain transaction *)
   let k = next_int () in
   let show_fk = next_bool () in
+  let fcode = next_int () in
+  let fidx = next_int () in
   let nt = next_int () in
   let tabs = times nt parse_table in
   let nc = next_int () in
@@ -142,7 +144,29 @@ let run_apply id =
     Printf.printf "%s res %s\n" id head;
     let ts = Stdlib.List.sort (fun a b -> compare (string_of_bytes a.et_name) (string_of_bytes b.et_name)) d'.d_tables in
     Stdlib.List.iter (fun t -> Printf.printf "%s %s\n" id (show_table tabs t)) ts in
-  if k >= 0 then begin
+  let rec nat_of_int i = if i <= 0 then O else S (nat_of_int (i - 1)) in
+  if fcode > 0 then begin
+    (* --tx-mode file with one failing statement: where do the tables end up? *)
+    let d = { d_tables = tabs; d_fk = fk; d_intx = false } in
+    let f = match fcode with
+      | 1 -> FQueryFK | 2 -> FSetFKOff | 3 -> FBegin | 4 -> FCheckBefore | 5 -> FStmt (nat_of_int fidx)
+      | 6 -> FCheckAfter | 7 -> FCommit | _ -> FRestoreFK in
+    match schema_apply_f conv genv TxFile f d cs with
+    | None -> Printf.printf "%s res planerr\n" id
+    | Some (d', r) ->
+        let after = match schema_apply conv genv TxFile d cs with Some (d0, None) -> Some d0.d_tables | _ -> None in
+        (* tables compared by name, columns (name, type, NOT NULL, default value, kind) and rows *)
+        let norm ts =
+          Stdlib.List.sort compare (Stdlib.List.map (fun t ->
+            (string_of_bytes t.et_name,
+             Stdlib.List.map (fun c -> (string_of_bytes c.rc_name, string_of_bytes c.rc_type, c.rc_notnull, show_value c.rc_defval, c.rc_gen)) t.et_cols,
+             Stdlib.List.sort compare (Stdlib.List.map (fun r ->
+               Stdlib.List.map (fun c -> if c.rc_gen then "*" else
+                 let rec get = function [] -> "?" | (k, v) :: r' -> if str_eqb k c.rc_name then show_value v else get r' in get r) t.et_cols) t.et_rows))) ts) in
+        let state = if norm d'.d_tables = norm tabs then "before"
+                    else (match after with Some a when norm a = norm d'.d_tables -> "after" | _ -> "other") in
+        Printf.printf "%s res fault err=%s state=%s\n" id (match r with None -> "0" | Some _ -> "1") state
+  end else if k >= 0 then begin
     (* the first k statements of the plan, on the connection *)
     let d = { d_tables = tabs; d_fk = fk; d_intx = false } in
     match planChanges cs with
